@@ -13,6 +13,10 @@ Input (one command per line):
                                                                          -> `<ok|refused@i> ;; <event>* ;; <state>`
   sched <foreign> | <value> | ... | <tid>*   thread programs `protect(value_i)` under a schedule
                                                                          -> `<event>* ;; <status>* ;; <state>`
+  schedx <foreign> | <P|D> <value> | ... | <tid>*   the same with `protect(value_i)` (P) or a bare
+                                     `copy.deepcopy(value_i)` (D) per thread (`histProg`)
+  tevents <foreign> <n> <tid>:<E|X|C>*   validate an observed linearised trace of n threads against `step`
+                                                                         -> `<ok|refused@i> ;; <event>* ;; <state>`
 Value syntax (prefix): `a` atom, `m` module, `b` uncopyable, `L <n> v1..vn`, `I <dnc> <postCopyRaises> <n> (<dnc_i> v_i)*`.
 Event: `<t><kind>:<table>:<refcount>:<patched>`; state: `table=.. rc=.. patched=.. depth=..`.
 -/
@@ -104,6 +108,32 @@ def showStat : TStatus → String
 
 def showE : Ev → String | .E => "E" | .X => "X" | .C => "C" | .F => "F" | .idle => "-"
 
+/-- validate a linearised multi-thread trace (`<tid>:<kind>` tokens) event by event with `step` -/
+def validateT : List String → Nat → Sys → List String → Sys × Option Nat × List String
+  | [], _, s, acc => (s, none, acc)
+  | e :: r, i, s, acc =>
+    match e.splitOn ":" with
+    | [ts, k] =>
+      let t := ts.toNat?.getD 0
+      let st : Option Step := match k with
+        | "E" => some (.enter t) | "X" => some (.exit t) | "C" => some (.copyModule t) | _ => none
+      match st.bind (step s) with
+      | none => (s, some i, acc)
+      | some s' =>
+        -- C is a lookup by a thread that holds no lock: only the table is compared there
+        let shown := if k == "C" then s!"{t}C:{showTable s'.table}" else showEv t k s'
+        validateT r (i + 1) s' (acc ++ [shown])
+    | _ => (s, some i, acc)
+
+def runSched (f : String) (progs : List (List Instr)) (sched : List Nat) : String :=
+  let c0 := Conf.start (f == "1") progs
+  let (c, evs) := sched.foldl (fun (acc : Conf × List String) t =>
+      let (c', e) := tick acc.1 t
+      -- C/F are lookups by a thread that holds no lock: only the table is compared there
+      let shown := if e == .C || e == .F then s!"{t}{showE e}:{showTable c'.sys.table}" else showEv t (showE e) c'.sys
+      (c', acc.2 ++ [shown])) (c0, [])
+  " ".intercalate evs ++ " ;; " ++ ",".intercalate (c.stat.map showStat) ++ " ;; " ++ showState c.sys
+
 def handle (s : Sys) (line : String) : Sys × String :=
   match toks line with
   | ["init", f, n] =>
@@ -140,13 +170,21 @@ def handle (s : Sys) (line : String) : Sys × String :=
     if vals.any (·.isNone) then (s, "bad-value") else
     let progs := vals.map (fun v => protectI (v.getD .atom))
     let sched := (parts.getLast?.getD []).map (fun x => x.toNat?.getD 0)
-    let c0 := Conf.start (f == "1") progs
-    let (c, evs) := sched.foldl (fun (acc : Conf × List String) t =>
-        let (c', e) := tick acc.1 t
-        -- C/F are lookups by a thread that holds no lock: only the table is compared there
-        let shown := if e == .C || e == .F then s!"{t}{showE e}:{showTable c'.sys.table}" else showEv t (showE e) c'.sys
-        (c', acc.2 ++ [shown])) (c0, [])
-    (s, " ".intercalate evs ++ " ;; " ++ ",".intercalate (c.stat.map showStat) ++ " ;; " ++ showState c.sys)
+    (s, runSched f progs sched)
+  | "schedx" :: f :: "|" :: r =>
+    let parts := splitBar r
+    let ops : List (Option HistOp) := parts.dropLast.map (fun p => match p with
+      | "P" :: v => (parseVal v).bind (fun x => if x.2.isEmpty then some (HistOp.protect x.1) else none)
+      | "D" :: v => (parseVal v).bind (fun x => if x.2.isEmpty then some (HistOp.deepcopy x.1) else none)
+      | _ => none)
+    if ops.any (·.isNone) then (s, "bad-value") else
+    let progs := ops.map (fun o => match o with | some op => histProg op | none => [])
+    let sched := (parts.getLast?.getD []).map (fun x => x.toNat?.getD 0)
+    (s, runSched f progs sched)
+  | "tevents" :: f :: n :: evs =>
+    let s0 := init (f == "1") (n.toNat?.getD 1)
+    let (s', bad, shown) := validateT evs 0 s0 []
+    (s, (match bad with | none => "ok" | some i => s!"refused@{i}") ++ " ;; " ++ " ".intercalate shown ++ " ;; " ++ showState s')
   | _ => (s, "bad-op")
 
 partial def loop (h : IO.FS.Stream) (out : IO.FS.Stream) (s : Sys) : IO Unit := do
